@@ -1,9 +1,14 @@
 (* C18 -- String buffer cache never aliases live buffers and gives everything back.
    Only statements; every proof is `exact <lemma>` into C18_Proofs.v. *)
 From Coq Require Import NArith Arith Bool List.
-From CppUVerif Require Import gen.Gen_C18 C18_Model C18_Proofs.
+From CppUVerif Require Import gen.Gen_C18 C18_Model C18_Lists C18_Inv C18_Sim C18_Proofs.
 Import ListNotations.
+Local Open Scope N_scope.
 
-Theorem C18_demo : valid demo = true /\ spec demo (run demo) = true.
-Proof. exact demo_ok. Qed.
-Print Assumptions C18_demo.
+(* for every history the model's observation satisfies the model-free statement of the property: no buffer handed out
+   overlaps one in use, capacity >= request, reuse only within the size class, blocks go back at most once, with their size
+   and never while in use, clearCache returns every idle block, clearAll everything obtained since construction,
+   destruction the node array, and the first unknown release (and only it) warns *)
+Theorem C18_run_meets_spec : forall s, valid s = true -> spec s (run s) = true.
+Proof. exact run_meets_spec. Qed.
+Print Assumptions C18_run_meets_spec.
